@@ -123,6 +123,12 @@ theorem origin_of_mem (m : Manifest) (op : Op) (r' : PRow) (h : r' ∈ liveAfter
     · exact .kept h rfl
     · obtain ⟨a, b, c, d, _⟩ := mem_numberRows h
       exact .fresh a (by simpa [nextAfter] using b) c d
+  | appendVia rv f rows =>
+    simp only [liveAfter, List.mem_append] at h
+    rcases h with h | h
+    · exact .kept h rfl
+    · obtain ⟨a, b, c, d, _⟩ := mem_numberRows h
+      exact .fresh a (by simpa [nextAfter] using b) c d
   | overwrite f rows =>
     simp only [liveAfter] at h
     obtain ⟨a, b, c, d, _⟩ := mem_numberRows h
@@ -253,6 +259,12 @@ theorem liveAfter_nodup (m : Manifest) (op : Op) (hb : ∀ r ∈ live m, r.rid <
   cases op with
   | create f k rows => exact hn
   | append f rows =>
+    simp only [liveAfter, rids, List.map_append]
+    refine nodup_append_fresh hn hlt (numberRows_nodup _ _ _) ?_
+    intro x hx
+    obtain ⟨r, hr, rfl⟩ := List.mem_map.mp hx
+    exact (mem_numberRows hr).1
+  | appendVia rv f rows =>
     simp only [liveAfter, rids, List.map_append]
     refine nodup_append_fresh hn hlt (numberRows_nodup _ _ _) ?_
     intro x hx
